@@ -119,8 +119,14 @@ def prepare(ctx, d: Path):
     sh2 = envgen.random_shape(ctx.rng, maxdepth=0, small=True)
     sh2.update({"pad": None, "deps": [], "cid": ["last", "nordicsemi.com", "nRF54H20_sample_rad"], "pay": [["#q", 21, "hex", 6]]})
     (d / "env2.suit").write_bytes(toolrun.create_lib(envgen.Builder(d / "b2").desc(sh2, toolrun.create_lib)))
+    # the build configuration of `bootcfg` EXCHANGES the roles of two built-in default classes (application <-> radio): a later
+    # boot without configuration, in the same interpreter, must still see the defaults
     (d / "boot.config").write_text('SB_CONFIG_SUIT_MPI_APP_LOCAL_3=y\nSB_CONFIG_SUIT_MPI_APP_LOCAL_3_VENDOR_NAME="ACME Corp"\n'
-                                   'SB_CONFIG_SUIT_MPI_APP_LOCAL_3_CLASS_NAME="acme app"\n')
+                                   'SB_CONFIG_SUIT_MPI_APP_LOCAL_3_CLASS_NAME="acme app"\n'
+                                   'SB_CONFIG_SUIT_MPI_APP_LOCAL_1_VENDOR_NAME="nordicsemi.com"\n'
+                                   'SB_CONFIG_SUIT_MPI_APP_LOCAL_1_CLASS_NAME="nRF54H20_sample_rad"\n'
+                                   'SB_CONFIG_SUIT_MPI_RAD_LOCAL_1_VENDOR_NAME="nordicsemi.com"\n'
+                                   'SB_CONFIG_SUIT_MPI_RAD_LOCAL_1_CLASS_NAME="nRF54H20_sample_app"\n')
     (d / "empty.bin").write_bytes(b"")
     from . import sigverify as sv
     (d / "keyA.pem").write_bytes(sv.pem(sv.gen_private("p256")))
@@ -191,7 +197,7 @@ def run(ctx: core.Check):
              ["cachenv", "create1", "cachenv2", "cachenv"], ["parse", "cachenv2", "chdir", "cachenv"], ["create3", "touch_fw", "create3", "create3perm"],
              ["create3perm", "create3", "touch_fw", "create3perm"], ["create3rel", "chdir", "create3rel", "create3"],
              ["create3", "create3rel", "chdir", "create3rel"], ["parsehA", "parsehB", "parsehA", "parse"],
-             ["parsehB", "parsehA", "parsehB", "parsehB"]]
+             ["parsehB", "parsehA", "parsehB", "parsehB"], ["bootcfg", "bootB", "boot", "bootcfg"], ["boot", "bootcfg", "boot", "bootB"]]
     per_seed = 40 if ctx.quick else 700
     d = ctx.tmp("c18")
     keys = prepare(ctx, d)
